@@ -116,4 +116,26 @@ PROPS = {
         "trivial_tags": [r":bad-op", r"/x0$"],
         "assumptions": ["addresses are observed at the mock transport, which replaces the socket layer"],
     },
+    "C09": {
+        "modules": ["Resolved.Props.C09"],
+        "bins": ["resolved"],
+        "streams": [{"name": "server", "quick": 1600, "thorough": 30000, "shards": 4}],
+        "trivial_tags": [r":bad-op", r":alive"],
+        "assumptions": [
+            "process survival, socket behaviour and the mpsc reply path are observed on the real binary, not modelled",
+            "D2: 'flagged as a response' is evaluated on messages that parse; an unparseable message gets FORMERR whatever its QR bit",
+            "one TCP message per connection; no RDATA > 65535 octets in zone files",
+            "no-reply is established by a sentinel query on the same socket plus a 40 ms grace period",
+        ],
+    },
+    "C19": {
+        "modules": ["Resolved.Props.C19"],
+        "bins": ["resolved"],
+        "streams": [{"name": "reload", "quick": 60, "thorough": 1500, "shards": 4}],
+        "trivial_tags": [r":bad-op", r"reload/ok0/failed0"],
+        "assumptions": [
+            "signal delivery, the tokio RwLock and the file system are observed on the real binary only",
+            "unreadable = invalid UTF-8 (chmod is useless as root); invalid = $INCLUDE or a malformed record",
+        ],
+    },
 }
